@@ -88,6 +88,18 @@ impl Cli {
             }),
         }
     }
+    /// A call whose method path is `path_len` bytes long ("/p" followed by padding segments).
+    pub fn call_path(&self, tag: u64, path_len: usize) -> BoxFut<Result<Value, RepeError>> {
+        let b = body(tag, 0);
+        let mut path = String::from("/p");
+        while path.len() < path_len {
+            path.push(if path.len() % 17 == 0 { '/' } else { 'q' });
+        }
+        match self.clone() {
+            Cli::Async(c) => Box::pin(async move { c.call_json(&path, &b).await }),
+            Cli::Ws(c) => Box::pin(async move { c.call_json(&path, &b).await }),
+        }
+    }
     /// The relay variant: `AsyncClient::forward_message[_with_timeout]` with a caller-chosen id
     /// (ids from 1 << 40 upwards never collide with the client's own numbering). The WebSocket
     /// client has no such API (falls back to `call`).
